@@ -6,7 +6,7 @@ for l in open(f'{R}/confirm.jsonl'):
     if l.startswith('{'):
         d=json.loads(l); conf[d['dir']]=d
 det={}
-files=[f'{R}/detect.jsonl']+sorted(glob.glob(f'{R}/detect-?.jsonl'))+sorted(glob.glob(f'{R}/detect2-?.jsonl'))+sorted(glob.glob(f'{R}/detect3-?.jsonl'))+sorted(glob.glob(f'{R}/detect4-?.jsonl'))+sorted(glob.glob(f'{R}/detect5-?.jsonl'))+sorted(glob.glob(f'{R}/detect6-?.jsonl'))+sorted(glob.glob(f'{R}/detect7-?.jsonl'))
+files=[f'{R}/detect.jsonl']+sorted(glob.glob(f'{R}/detect-?.jsonl'))+sorted(glob.glob(f'{R}/detect2-?.jsonl'))+sorted(glob.glob(f'{R}/detect3-?.jsonl'))+sorted(glob.glob(f'{R}/detect4-?.jsonl'))+sorted(glob.glob(f'{R}/detect5-?.jsonl'))+sorted(glob.glob(f'{R}/detect6-?.jsonl'))+sorted(glob.glob(f'{R}/detect7-?.jsonl'))+sorted(glob.glob(f'{R}/detect10-?.jsonl'))
 for f in files:
     if not os.path.exists(f): continue
     phase='after the strengthening of this round' if any(x in f for x in ('detect2','detect3','detect5','detect7')) else 'as the checks were when the change arrived'
@@ -16,7 +16,7 @@ for f in files:
         d=json.loads(l); d['phase']=phase; det.setdefault(d['dir'],[]).append(d)
 for d in sorted(conf):
     sid=os.path.basename(d)
-    m=re.match(r'^(C\d\d)-([zpqk])(\d)$', sid)
+    m=re.match(r'^(C\d\d)-([zpqkm])(\d)$', sid)
     if not m: continue
     c=conf[d]
     assert c['applies'] and '67 passed' in c['suite'] and c['demo_exit_with_change']!=0 and c['demo_exit_without_change']==0, sid
